@@ -120,7 +120,7 @@ func compilePattern(p string) *regexp.Regexp {
 		q := regexp.QuoteMeta(p)
 		q = strings.ReplaceAll(q, `\*\*`, `.*`)
 		q = strings.ReplaceAll(q, `\*`, `[^/]*`)
-		q = strings.ReplaceAll(q, `\?`, `[^/]?`)
+		q = strings.ReplaceAll(q, `\?`, `[^/]`) // a glob: exactly one character
 		return regexp.MustCompile("^" + q + "$")
 	}
 	return regexp.MustCompile(p[1:])
